@@ -300,7 +300,8 @@ def run_cli(argv, timeout=20, cwd_rel=None):
     # by every check, chosen by a stable hash of the command line (directory names, which are random, left out)
     argv = list(argv)
     to_file = None
-    if argv and argv[0] in ("view", "stat", "phase", "find_path", "realign") and argv.count("-o") == 1:
+    plain = os.environ.get("VERIF_PLAIN_CLI") == "1"      # X05 studies the request itself: no variants
+    if not plain and argv and argv[0] in ("view", "stat", "phase", "find_path", "realign") and argv.count("-o") == 1:
         # SALT: set by a check that compares several runs of one command with each other (C17), so that all of them
         # are made in the same form
         key = (SALT + " " + " ".join(a for a in argv if a.startswith("-") or a == argv[0])) if SALT is not None else (CASE or "") + " ".join(os.path.basename(a) for a in argv)
@@ -312,7 +313,7 @@ def run_cli(argv, timeout=20, cwd_rel=None):
     # one call in four that names an output file finds a file of an earlier run at that place (to be replaced, not
     # appended to or trusted)
     for flag in ("-o", "--outgaf", "--outind"):
-        if argv and argv[0] in ("view", "stat", "phase", "find_path", "realign", "sort", "index") and argv.count(flag) == 1:
+        if not plain and argv and argv[0] in ("view", "stat", "phase", "find_path", "realign", "sort", "index") and argv.count(flag) == 1:
             target = argv[argv.index(flag) + 1]
             key = (SALT or CASE or "") + flag + " ".join(os.path.basename(a) for a in argv)
             if zlib.crc32(key.encode()) % 4 == 1 and os.path.isdir(os.path.dirname(target) or ".") and not os.path.exists(target):
